@@ -26,15 +26,17 @@ Section Proofs.
   Notation check_response := (check_response IH VerifyR profile_rest trusted).
   Notation process_responses := (process_responses IH VerifyR profile_rest trusted).
   Notation check_ocsp_status := (check_ocsp_status IH VerifyR profile_rest trusted).
+  Notation other_evidence := (other_evidence IH VerifyR profile_rest trusted).
   Notation claim_survives := (claim_survives IH VerifyR profile_rest trusted).
 
   (* "validly signed": decodes, embeds the responder certificate, the signature verifies with its key, the responder
-     certificate passes the profile (OCSPSigning EKU gate, validity at the signing time or now) and is trusted *)
+     certificate carries id-kp-OCSPSigning, passes the profile (validity at the signing time or now) and is trusted *)
   Definition usable (r : response) (st : option Z) (now : Z) : bool :=
     rp_decodes r && rp_sig_alg_ok r &&
     match rp_certs r with
     | Some (first :: _) =>
       VerifyR (tc_key first) (rp_signature r) (rp_tbs r) &&
+      has_ocsp_eku first &&
       match responder_profile profile_rest first st now with None => true | Some _ => false end &&
       trusted first st
     | _ => false
@@ -135,7 +137,8 @@ Section Proofs.
     - destruct (rp_sig_alg_ok r); cbn [negb andb] in *; [|reflexivity].
       destruct (VerifyR (tc_key first) (rp_signature r) (rp_tbs r)); cbn [negb andb] in *; [|reflexivity].
       destruct (scan ch (rp_produced_at r) st now (rp_singles r) false None []) as [b| |b rev internal]; cbn [ck_certs];
-        (destruct (responder_profile profile_rest first st now); [reflexivity|]; cbn [andb] in Hu; rewrite Hu; reflexivity).
+        (destruct (has_ocsp_eku first); cbn [negb andb] in *; [|reflexivity];
+         destruct (responder_profile profile_rest first st now); [reflexivity|]; cbn [andb] in Hu; rewrite Hu; reflexivity).
   Qed.
 
   Lemma unconcerned_ignored :
@@ -148,6 +151,7 @@ Section Proofs.
     - destruct (rp_sig_alg_ok r); cbn [negb]; [|reflexivity].
       destruct (VerifyR (tc_key first) (rp_signature r) (rp_tbs r)); cbn [negb]; [|reflexivity].
       rewrite (scan_no_match _ _ _ _ _ _ _ _ Hc). cbn [ck_certs].
+      destruct (has_ocsp_eku first); cbn [negb]; [|reflexivity].
       destruct (responder_profile profile_rest first st now); [reflexivity|].
       destruct (trusted first st); reflexivity.
   Qed.
@@ -174,59 +178,44 @@ Section Proofs.
     - destruct (check_response x ch st now) as [ck l]. destruct (decide ck l); [reflexivity|]. apply IH1. exact Hi.
   Qed.
 
-  Definition supplied_used (cf : config) (supplied : list response) : bool :=
-    cf_override cf && match supplied with [] => false | _ => true end.
-
-  (* stapled and irrelevant: contributes nothing — no code, no error *)
-  Lemma stapled_irrelevant :
+  (* stapled and irrelevant: the result is the one of the same manifest without the staple, in every configuration
+     (fix fb08c71da closed F-OCSP-SHADOW: no known class) *)
+  Lemma stapled_irrelevant_same :
     forall cf r supplied fetched ch st now,
-      irrelevant r ch st now -> supplied_used cf supplied = false ->
-      check_ocsp_status cf (Some r) supplied fetched ch st now = (StatusOk false, []).
-  Proof.
-    intros cf r supplied fetched ch st now Hi Hs. unfold Ocsp.check_ocsp_status, supplied_used in *.
-    pose proof (irrelevant_undecided _ _ _ _ Hi) as Hd.
-    destruct (cf_override cf); cbn [andb] in Hs.
-    - destruct supplied; [|discriminate].
-      destruct (check_response r ch st now) as [ck l]. cbn [fst snd] in Hd. rewrite Hd. reflexivity.
-    - destruct (check_response r ch st now) as [ck l]. cbn [fst snd] in Hd. rewrite Hd. reflexivity.
-  Qed.
-
-  (* ... hence the verdict is the one of the same manifest without the staple, when nothing else would have been
-     consulted in its place (no supplied responses, fetching off) *)
-  Lemma stapled_irrelevant_same_verdict :
-    forall cf r fetched ch st now,
-      irrelevant r ch st now -> cf_fetch cf = false ->
-      check_ocsp_status cf (Some r) [] fetched ch st now = check_ocsp_status cf None [] fetched ch st now.
-  Proof.
-    intros cf r fetched ch st now Hi Hf.
-    rewrite (stapled_irrelevant cf r [] fetched ch st now Hi).
-    - unfold Ocsp.check_ocsp_status. rewrite Hf. destruct (cf_override cf); reflexivity.
-    - unfold supplied_used. destruct (cf_override cf); reflexivity.
-  Qed.
-
-  (* known class F-OCSP-SHADOW: an ignored staple still replaces what would have been consulted without it *)
-  Definition known_shadow (cf : config) (supplied : list response) : Prop :=
-    cf_fetch cf = true \/ supplied <> [].
-
-  Lemma stapled_irrelevant_unless_shadow :
-    forall cf r supplied fetched ch st now,
-      irrelevant r ch st now -> ~ known_shadow cf supplied ->
+      irrelevant r ch st now ->
       check_ocsp_status cf (Some r) supplied fetched ch st now = check_ocsp_status cf None supplied fetched ch st now.
   Proof.
-    intros cf r supplied fetched ch st now Hi Hk. unfold known_shadow in Hk.
-    destruct supplied as [|x xs]; [|exfalso; apply Hk; right; discriminate].
-    destruct (cf_fetch cf) eqn:Hf; [exfalso; apply Hk; left; reflexivity|].
-    apply stapled_irrelevant_same_verdict; assumption.
+    intros cf r supplied fetched ch st now Hi. unfold Ocsp.check_ocsp_status.
+    pose proof (irrelevant_undecided _ _ _ _ Hi) as Hd.
+    destruct (if cf_override cf then supplied else []); [|reflexivity].
+    destruct (check_response r ch st now) as [ck l]. cbn [fst snd] in Hd. rewrite Hd. reflexivity.
+  Qed.
+
+  (* in particular it contributes no code and no error when nothing else is available *)
+  Lemma stapled_irrelevant_nothing :
+    forall cf r fetched ch st now,
+      irrelevant r ch st now -> cf_fetch cf = false ->
+      check_ocsp_status cf (Some r) [] fetched ch st now = (StatusOk false, []).
+  Proof.
+    intros cf r fetched ch st now Hi Hf. rewrite (stapled_irrelevant_same cf r [] fetched ch st now Hi).
+    unfold Ocsp.check_ocsp_status, Ocsp.other_evidence. rewrite Hf. destruct (cf_override cf); reflexivity.
+  Qed.
+
+  Lemma other_evidence_skip :
+    forall cf rs1 r rs2 fetched ch st now,
+      irrelevant r ch st now ->
+      other_evidence cf (rs1 ++ r :: rs2) fetched ch st now = other_evidence cf (rs1 ++ rs2) fetched ch st now.
+  Proof.
+    intros cf rs1 r rs2 fetched ch st now Hi. unfold Ocsp.other_evidence.
+    destruct (cf_fetch cf); [reflexivity|]. apply process_skip. exact Hi.
   Qed.
 
   (* supplied (asserted) responses: irrelevant ones never change the result *)
   Lemma supplied_irrelevant :
     forall cf stapled rs1 r rs2 fetched ch st now,
       irrelevant r ch st now ->
-      fst (check_ocsp_status cf stapled (rs1 ++ r :: rs2) fetched ch st now)
-      = fst (check_ocsp_status cf stapled (rs1 ++ rs2) fetched ch st now)
-      /\ snd (check_ocsp_status cf stapled (rs1 ++ r :: rs2) fetched ch st now)
-         = snd (check_ocsp_status cf stapled (rs1 ++ rs2) fetched ch st now)
+      check_ocsp_status cf stapled (rs1 ++ r :: rs2) fetched ch st now
+      = check_ocsp_status cf stapled (rs1 ++ rs2) fetched ch st now
       \/ (cf_override cf = true /\ rs1 ++ rs2 = []).
   Proof.
     intros cf stapled rs1 r rs2 fetched ch st now Hi.
@@ -235,11 +224,9 @@ Section Proofs.
       unfold Ocsp.check_ocsp_status. rewrite Ho.
       assert (Hne : exists z zs, rs1 ++ r :: rs2 = z :: zs) by (destruct rs1; cbn; eauto).
       destruct Hne as [z [zs Hz]]. rewrite Hz, <- Hz. rewrite <- E12.
-      rewrite (process_skip rs1 r rs2 ch st now Hi). rewrite E12. split; reflexivity.
+      rewrite (process_skip rs1 r rs2 ch st now Hi). rewrite E12. reflexivity.
     - left. unfold Ocsp.check_ocsp_status. rewrite Ho.
-      destruct stapled as [s|]; [split; reflexivity|].
-      destruct (cf_fetch cf); [split; reflexivity|].
-      rewrite (process_skip rs1 r rs2 ch st now Hi). split; reflexivity.
+      rewrite (other_evidence_skip cf rs1 r rs2 fetched ch st now Hi). reflexivity.
   Qed.
 
   (* ---- a bound, validly signed "revoked" is fatal *)
@@ -265,15 +252,19 @@ Section Proofs.
     destruct (rp_decodes r); cbn [negb andb] in *; [|discriminate].
     destruct (rp_sig_alg_ok r); cbn [negb andb] in *; [|discriminate].
     destruct (rp_certs r) as [[|first rest]|]; try discriminate.
-    apply andb_true_iff in Hu. destruct Hu as [Hu Htr]. apply andb_true_iff in Hu. destruct Hu as [Hv Hp].
+    apply andb_true_iff in Hu. destruct Hu as [Hu Htr]. apply andb_true_iff in Hu. destruct Hu as [Hu Hp].
+    apply andb_true_iff in Hu. destruct Hu as [Hv Heku].
     rewrite Hv. cbn [negb].
     unfold no_stopper in Hn. apply negb_true_iff in Hn.
     destruct (scan_no_stopper ch (rp_produced_at r) st now (rp_singles r) false None [] Hn) as [b' [rev' [l [E Hl]]]].
-    rewrite E. cbn [ck_certs app].
+    rewrite E. cbn [ck_certs app]. rewrite Heku. cbn [negb].
     destruct (responder_profile profile_rest first st now); [discriminate|]. rewrite Htr. cbn [negb snd].
     apply has_code_in. apply Hl. unfold says_revoked in Hr.
     eapply existsb_impl; [|exact Hr]. intros x Hx. apply reports_revoked_logs. exact Hx.
   Qed.
+
+  Definition supplied_used (cf : config) (supplied : list response) : bool :=
+    cf_override cf && match supplied with [] => false | _ => true end.
 
   Lemma stapled_revoked_fatal :
     forall cf r supplied fetched ch st now,
@@ -293,11 +284,15 @@ Section Proofs.
     split; [exact E|]. unfold Ocsp.claim_survives. rewrite E. reflexivity.
   Qed.
 
-  (* asserted route: the supplied list is consulted (override, or no staple and fetching off); every response before
-     the revoked one is irrelevant *)
+  (* the staple does not settle the question: absent, or irrelevant *)
+  Definition staple_undecided (stapled : option response) (ch : option signer_chain) (st : option Z) (now : Z) : Prop :=
+    match stapled with None => True | Some r0 => irrelevant r0 ch st now end.
+
+  (* asserted route: the supplied list is consulted (override; or fetching off and the staple, if any, is irrelevant);
+     every response before the revoked one is irrelevant *)
   Lemma supplied_revoked_fatal :
     forall cf stapled rs1 r rs2 fetched ch st now,
-      (cf_override cf = true \/ (stapled = None /\ cf_fetch cf = false)) ->
+      (cf_override cf = true \/ (cf_fetch cf = false /\ staple_undecided stapled ch st now)) ->
       Forall (fun x => irrelevant x ch st now) rs1 ->
       usable r st now = true -> says_revoked r ch st = true -> no_stopper r ch st now = true ->
       claim_survives cf stapled (rs1 ++ r :: rs2) fetched ch st now = false.
@@ -309,40 +304,43 @@ Section Proofs.
       - destruct (check_response r ch st now) as [ck l]. cbn [snd] in Hl. unfold decide. rewrite Hl. reflexivity.
       - pose proof (irrelevant_undecided _ _ _ _ Hx) as Hd.
         destruct (check_response x ch st now) as [ck l]. cbn [fst snd] in Hd. rewrite Hd. exact IH1. }
-    unfold Ocsp.claim_survives, Ocsp.check_ocsp_status.
     assert (Hne : exists z zs, rs1 ++ r :: rs2 = z :: zs) by (destruct rs1; cbn; eauto).
-    destruct Hroute as [Ho|[Hs Hf]].
-    - rewrite Ho. destruct Hne as [z [zs Hz]]. rewrite Hz, <- Hz. rewrite Hp. reflexivity.
-    - subst stapled. rewrite Hf. destruct (cf_override cf).
+    unfold Ocsp.claim_survives.
+    destruct Hroute as [Ho|[Hf Hs]].
+    - unfold Ocsp.check_ocsp_status. rewrite Ho. destruct Hne as [z [zs Hz]]. rewrite Hz, <- Hz. rewrite Hp. reflexivity.
+    - assert (E : check_ocsp_status cf stapled (rs1 ++ r :: rs2) fetched ch st now
+                  = check_ocsp_status cf None (rs1 ++ r :: rs2) fetched ch st now).
+      { destruct stapled as [r0|]; [apply stapled_irrelevant_same; exact Hs | reflexivity]. }
+      rewrite E. unfold Ocsp.check_ocsp_status, Ocsp.other_evidence. rewrite Hf.
+      destruct (cf_override cf).
       + destruct Hne as [z [zs Hz]]. rewrite Hz, <- Hz. rewrite Hp. reflexivity.
       + rewrite Hp. reflexivity.
   Qed.
 
-  (* ---- the responder certificate: what the EKU gate lets through *)
+  (* ---- the responder certificate: id-kp-OCSPSigning and nothing else (fix b2c9a9e81 closed F-OCSP-EKU) *)
   Lemma responder_eku :
     forall r st now first rest,
       usable r st now = true -> rp_certs r = Some (first :: rest) ->
       exists e, tc_eku first = Some e /\ eku_any e = false /\
-                (eku_other_allowed e = false ->
-                 (eku_ocsp_signing e = true /\ eku_time_stamping e = false /\ eku_email_protection e = false /\
-                  eku_client_auth e = false /\ eku_server_auth e = false /\ eku_code_signing e = false /\ eku_other_nonempty e = false)
-                 \/ (eku_ocsp_signing e = false /\ (eku_email_protection e = true \/ eku_time_stamping e = true))).
+                eku_ocsp_signing e = true /\ eku_time_stamping e = false /\ eku_email_protection e = false /\
+                eku_client_auth e = false /\ eku_server_auth e = false /\ eku_code_signing e = false /\ eku_other_nonempty e = false.
   Proof.
     intros r st now first rest Hu Hc. unfold usable in Hu. rewrite Hc in Hu.
     apply andb_true_iff in Hu. destruct Hu as [_ Hu]. apply andb_true_iff in Hu. destruct Hu as [Hu _].
-    apply andb_true_iff in Hu. destruct Hu as [_ Hp].
+    apply andb_true_iff in Hu. destruct Hu as [Hu Hp]. apply andb_true_iff in Hu. destruct Hu as [_ Heku].
     unfold responder_profile, tsa_profile in Hp.
     destruct (tc_v3 first); cbn [negb] in Hp; [|discriminate].
     destruct (valid_at _ _ _); cbn [negb] in Hp; [|discriminate].
     destruct (profile_rest first); [discriminate|].
     destruct (eku_gate first) eqn:Eg; cbn [negb] in Hp; [|discriminate].
     destruct (tc_is_ca first) eqn:Eca; [discriminate|].
-    unfold eku_gate in Eg. rewrite Eca in Eg. destruct (tc_eku first) as [e|]; [|discriminate].
+    unfold eku_gate in Eg. rewrite Eca in Eg. unfold has_ocsp_eku in Heku.
+    destruct (tc_eku first) as [e|]; [|discriminate].
     exists e. split; [reflexivity|].
-    apply andb_true_iff in Eg. destruct Eg as [Eg Ebad]. apply andb_true_iff in Eg. destruct Eg as [Eany Eall].
+    apply andb_true_iff in Eg. destruct Eg as [Eg Ebad]. apply andb_true_iff in Eg. destruct Eg as [Eany _].
     apply negb_true_iff in Eany. apply negb_true_iff in Ebad. split; [exact Eany|].
-    intros Hoth. unfold has_allowed_eku in Eall. rewrite Hoth in Eall. unfold eku_bad_set in Ebad.
-    destruct (eku_time_stamping e), (eku_email_protection e), (eku_ocsp_signing e), (eku_client_auth e), (eku_server_auth e),
+    unfold eku_bad_set in Ebad. rewrite Heku in *.
+    destruct (eku_time_stamping e), (eku_email_protection e), (eku_client_auth e), (eku_server_auth e),
       (eku_code_signing e), (eku_other_nonempty e); cbn in *; try discriminate; auto 10.
   Qed.
 End Proofs.
@@ -374,33 +372,33 @@ Lemma example_revoked : w_status (w_cf false false) (Some w_revoked) [] None = (
                         /\ w_status (w_cf false false) (Some w_junk) [] None = (StatusOk false, []).
 Proof. vm_compute. split; reflexivity. Qed.
 
-(* F-OCSP-SHADOW: an irrelevant staple (about another certificate) hides an asserted "revoked" (override off)
-   and suppresses fetching *)
-Lemma shadow_refuted :
+(* regression witnesses of the repaired findings (corpus lines 1-2, 4-6):
+   F-OCSP-SHADOW (fixed fb08c71da): an irrelevant staple no longer hides an asserted `revoked` nor suppresses fetching *)
+Lemma shadow_fixed_example :
   w_status (w_cf false false) None [w_revoked] None = (StatusRevoked, [OcRevoked])
-  /\ w_status (w_cf false false) (Some w_junk) [w_revoked] None = (StatusOk false, [])
+  /\ w_status (w_cf false false) (Some w_junk) [w_revoked] None = (StatusRevoked, [OcRevoked])
   /\ w_status (w_cf false true) None [] (Some w_revoked) = (StatusOk true, [OcRevoked])
-  /\ w_status (w_cf false true) (Some w_junk) [] (Some w_revoked) = (StatusOk false, []).
+  /\ w_status (w_cf false true) (Some w_junk) [] (Some w_revoked) = (StatusOk true, [OcRevoked]).
 Proof. vm_compute. repeat split; reflexivity. Qed.
 
-(* F-OCSP-EKU: a responder certificate with emailProtection only (any signing credential of the same CA) is accepted *)
-Lemma responder_eku_refuted :
+(* F-OCSP-EKU (fixed b2c9a9e81): a responder certificate with emailProtection only is not accepted any more *)
+Lemma responder_eku_fixed_example :
   w_status (w_cf false false) (Some (w_response (w_responder (w_eku false true) false) [w_single 77 (Revoked 500 None)])) [] None
-  = (StatusRevoked, [OcRevoked])
+  = (StatusOk false, [])
   /\ w_status (w_cf false false) (Some (w_response (w_responder (w_eku false true) false) [w_single 77 Good])) [] None
-  = (StatusOk true, [OcNotRevoked]).
+  = (StatusOk false, []).
 Proof. vm_compute. split; reflexivity. Qed.
 
-(* F-OCSP-CA: a response signed by the issuing CA itself (a CA certificate) is not usable: "revoked" is ignored *)
+(* F-OCSP-CA (open): a response signed by the issuing CA itself (a CA certificate without EKU) is not usable: "revoked" is ignored *)
 Lemma ca_signed_refuted :
   w_status (w_cf false false) (Some (w_response (w_responder (w_eku true false) true) [w_single 77 (Revoked 500 None)])) [] None
   = (StatusOk false, []).
 Proof. vm_compute. reflexivity. Qed.
 
-(* F-OCSP-CARRIER: a usable `revoked` about the signer with serial 77, carried by a manifest of another signer (serial 80),
-   never reaches the claim it is about; carried by a manifest of the same signer it does *)
+(* F-OCSP-CARRIER (fixed 0aa703aa5): a usable `revoked` about the signer with serial 77 reaches that signer's claim
+   whichever manifest carries the assertion, and does not reach another signer's claim *)
 Definition w_chain_other : signer_chain := {| sc_serial := 80%N; sc_issuer_name := [1; 2]%N; sc_issuer_key := [3; 4]%N |}.
-Lemma carrier_refuted :
-  assertion_supplies toyIH toyVerifyR (Some w_chain_other) w_revoked 77%N 1000 = false
-  /\ assertion_supplies toyIH toyVerifyR (Some w_chain) w_revoked 77%N 1000 = true.
+Lemma carrier_fixed_example :
+  assertion_supplies toyIH toyVerifyR [w_chain_other; w_chain] w_revoked 77%N 1000 = true
+  /\ assertion_supplies toyIH toyVerifyR [w_chain_other; w_chain] w_revoked 80%N 1000 = false.
 Proof. vm_compute. split; reflexivity. Qed.
